@@ -115,8 +115,9 @@ func ExpandTable(p *Program, db *ContractDB, fc *FnContract) ([]*FnContract, err
 // function is executed again with the full region set known from the start.
 func VerifyFunction(p *Program, db *ContractDB, fc *FnContract) *FnResult {
 	var pre map[string]Sort
+	var preTypes map[string]types.Type
 	for pass := 0; ; pass++ {
-		res := verifyFunctionPass(p, db, fc, pre)
+		res := verifyFunctionPass(p, db, fc, pre, preTypes)
 		x := res.Exec
 		if x == nil || pass >= 2 || x.frameEvals == 0 || len(x.regionSort) <= x.minRegionsAtFrame {
 			return res
@@ -125,10 +126,11 @@ func VerifyFunction(p *Program, db *ContractDB, fc *FnContract) *FnResult {
 		for r, s := range x.regionSort {
 			pre[r] = s
 		}
+		preTypes = x.regionTypes
 	}
 }
 
-func verifyFunctionPass(p *Program, db *ContractDB, fc *FnContract, preRegions map[string]Sort) (res *FnResult) {
+func verifyFunctionPass(p *Program, db *ContractDB, fc *FnContract, preRegions map[string]Sort, preTypes map[string]types.Type) (res *FnResult) {
 	res = &FnResult{Name: fc.Name, Contract: fc}
 	fn := fc.Fn
 	if fn == nil {
@@ -136,6 +138,9 @@ func verifyFunctionPass(p *Program, db *ContractDB, fc *FnContract, preRegions m
 		return res
 	}
 	x := NewExec(p, db, fn)
+	for _, t := range preTypes {
+		x.C.SortOf(t) // declare the sorts of the regions known from the previous pass before anything mentions them
+	}
 	for r, s := range preRegions {
 		x.regionSort[r] = s
 	}
